@@ -134,10 +134,13 @@ class SymDecl:
 
 class NativeDecl:
     symbolic = False
-    def __init__(self, values):
+    def __init__(self, values, lenient=False):
         self.values = values
         self.ok = True
         self.meta = {}
+        # lenient: replay of a recorded (open) finding -- its input lies, by construction, in the region the
+        # contract's precondition now excludes, and flags added to the input space later default to False
+        self.lenient = lenient
     def _get(self, name):
         if name not in self.values:
             raise KeyError('input %s missing from replay values' % name)
@@ -165,9 +168,11 @@ class NativeDecl:
             self.ok = False
         return v
     def bool(self, name):
+        if self.lenient and name not in self.values:
+            return False
         return bool(self._get(name))
     def assume(self, cond):
-        if not cond:
+        if not cond and not self.lenient:
             self.ok = False
         return bool(cond)
 
@@ -668,7 +673,7 @@ def _unjs(vals):
     return out
 
 
-def replay_inputs(cname, cfg, vals, label=None):
+def replay_inputs(cname, cfg, vals, label=None, lenient=False):
     """Run the REAL function natively on concrete inputs and evaluate every clause natively.
     -> {'replayable': bool, 'failed_clauses': [...], 'obs': canon}"""
     c = REGISTRY[cname]
@@ -679,7 +684,7 @@ def replay_inputs(cname, cfg, vals, label=None):
     try:
         snap_n.restore()
         # real-valued inputs that are not doubles: move to the nearest double
-        ND = NativeDecl(vals)
+        ND = NativeDecl(vals, lenient=lenient)
         try:
             ninp = c.inputs(cfg, ND)
         except KeyError as e:
